@@ -38,7 +38,7 @@ def run(ctx, want=WANT, scale=1):
     with oracles.NeighborCounter() as nc:
         stream = trav.case_stream(
             ctx, rng,
-            n_random=(3000 if quick else 12000) * scale,
+            n_random=ctx.n((3000 if quick else 12000) * scale),
             nmax=8 if quick else 14, mmax=14 if quick else 30,
             exhaustive_n=3 if quick else 4,
             big=() if quick else (40, 120, 300),
